@@ -257,6 +257,16 @@ Fixpoint merge_items (l1 : list item) : list item -> list item :=
         end
     end.
 
+(* merge of two weakly sorted lists that keeps equal items of both (a sorted multiset union) *)
+Fixpoint merge_keep (l1 : list item) : list item -> list item :=
+  fix inner (l2 : list item) : list item :=
+    match l1, l2 with
+    | [], _ => l2
+    | _, [] => l1
+    | a :: r1, b :: r2 =>
+        if item_key a <=? item_key b then a :: merge_keep r1 l2 else b :: inner r2
+    end.
+
 Definition mem_item (it : item) (l : list item) : bool := existsb (item_eqb it) l.
 
 (* keep the first occurrence of every item *)
@@ -664,7 +674,9 @@ Section Eval.
     if nonchild_axis ax || nca then
       if f_crash fl && has_descent (dedupe raw []) None && last_top_childless t false then Err E_CRASH else Ok tt
     else
-      if f_assert fl && negb (sorted_items raw) then Err E_ASSERT else Ok tt.
+      (* set_sort() finds nothing to swap between equal items *)
+      if f_assert fl && negb (match raw with [] => true | it :: r => sorted_weak_from (item_key it) r end)
+      then Err E_ASSERT else Ok tt.
 
   (* the union over the context items of S of the selected items *)
   Definition step_union (ax : axis) (nt : ntest) (S : list item) : list item :=
@@ -743,7 +755,13 @@ Section Eval.
       if f_predglobal fl then
         let is_name := match nt with TName _ _ | TStar _ => true | _ => false end in
         let dup_mode := f_alldup fl && alldesc_child && is_name in
-        let all := if dup_mode then alldesc_coded nt (step_union AxChild TNode S0) else step_union ax nt S in
+        (* as coded a child or self step does not look for duplicates: from a context set that holds a node twice
+           (see dup_mode) the selected nodes come twice as well *)
+        let keep_dups := f_alldup fl && negb (nonchild_axis ax) && negb ds_eff &&
+                         negb (length (dedupe S []) =? length S)%nat in
+        let all := if dup_mode then alldesc_coded nt (step_union AxChild TNode S0)
+                   else if keep_dups then fold_left (fun acc c => merge_keep acc (cands fl t ax nt c)) S []
+                   else step_union ax nt S in
         (* asserts of the debug build: a duplicate cannot be inserted into the hash table a set has from its
            4th item on (set_insert_node_hash); the final set must not need sorting *)
         if dup_mode && f_assert fl &&
